@@ -125,6 +125,19 @@ var linkHash = plumbing.NewHash("1234567890123456789012345678901234567890")
 const cIds = "c1 c2 c3 c4 c5 c6 c7 c8"
 const gIds = "g1 g2 g3 g4 g5 g6"
 
+// entryMode is the concrete kind of a tree / index entry holding blob b: the model only knows the
+// tree -> blob edge; which file mode carries it is a rendering choice, spread over the three kinds
+// git has for blobs (regular, executable, symbolic link).
+func entryMode(b string) filemode.FileMode {
+	switch b {
+	case "b2":
+		return filemode.Symlink
+	case "b3":
+		return filemode.Executable
+	}
+	return filemode.Regular
+}
+
 func blobContent(b string) []byte {
 	// a long common part, so that the pack encoder has deltas to make
 	return []byte(strings.Repeat("the quick brown fox jumps over the lazy dog\n", 12) + "blob " + b + "\n")
@@ -233,14 +246,14 @@ func (w *gcWorld) fresh() *filesystem.Storage {
 }
 
 func (w *gcWorld) subtreeObj(d string) plumbing.EncodedObject {
-	t := &object.Tree{Entries: []object.TreeEntry{{Name: "b", Mode: filemode.Regular, Hash: mkObj(plumbing.BlobObject, blobContent(d)).Hash()}}}
+	t := &object.Tree{Entries: []object.TreeEntry{{Name: "b", Mode: entryMode(d), Hash: mkObj(plumbing.BlobObject, blobContent(d)).Hash()}}}
 	return encObj(t)
 }
 
 func (w *gcWorld) treeObj(a, d, m string) plumbing.EncodedObject {
 	t := &object.Tree{}
 	if a != "none" {
-		t.Entries = append(t.Entries, object.TreeEntry{Name: "a", Mode: filemode.Regular, Hash: mkObj(plumbing.BlobObject, blobContent(a)).Hash()})
+		t.Entries = append(t.Entries, object.TreeEntry{Name: "a", Mode: entryMode(a), Hash: mkObj(plumbing.BlobObject, blobContent(a)).Hash()})
 	}
 	if d != "none" {
 		t.Entries = append(t.Entries, object.TreeEntry{Name: "d", Mode: filemode.Dir, Hash: w.subtreeObj(d).Hash()})
@@ -310,11 +323,11 @@ func (w *gcWorld) indexOf(ix gcIdx) *index.Index {
 	}
 	if ix.A != "none" {
 		c := blobContent(ix.A)
-		add("a", mkObj(plumbing.BlobObject, c).Hash(), filemode.Regular, len(c))
+		add("a", mkObj(plumbing.BlobObject, c).Hash(), entryMode(ix.A), len(c))
 	}
 	if ix.D != "none" {
 		c := blobContent(ix.D)
-		add("d/b", mkObj(plumbing.BlobObject, c).Hash(), filemode.Regular, len(c))
+		add("d/b", mkObj(plumbing.BlobObject, c).Hash(), entryMode(ix.D), len(c))
 	}
 	if ix.M != "none" {
 		add("m", linkHash, filemode.Submodule, 0)
